@@ -97,6 +97,10 @@ var plans = map[string]Plan{
 		Rule: "one evaluation = one simulated lifecycle-call sequence (3 of 4 at Search API level with the harness as UCI driver, 1 of 4 through UCI text), run on the plain build and (a subset) on the -race build inside the simulator; distinct = distinct interleaving signatures (call kind, search phase at arrival, live timer count); non-trivial = at least one fault kind fired (call at a 'wrong' time, cancellation of a running search, time-out mid-search, start within 5 ms of a result, stall)",
 		Real: realEngine, Stub: append([]string{"API controller (harness goroutine issuing real lifecycle calls)", "UCI driver interface (harness records results)"}, stubEnv...),
 		Assume: []string{"race detection is happens-before based (Go race detector) on the simulated schedule; harness code on engine goroutines is //go:norace and free of synchronisation", "slot atomicity of one controller call"}},
+	"C16": {Level: "exploration", Runs: [2]int{1600, 40000}, Batch: 50, DesignRef: "5/C16",
+		Rule: "one evaluation = one simulated UCI session in which each command line is passed through intact or damaged in flight (truncate/drop/duplicate/swap tokens, numeric extremes, junk tokens, whitespace and control bytes, blank and over-long lines, corrupted FEN payloads, unreadable moves), followed by isready probes and a valid recovery position/go; plus direct FEN parsing of every generated payload. distinct = distinct (interleaving signature); non-trivial = at least one damaged line was delivered",
+		Real: realEngine, Stub: stubEnv,
+		Assume: []string{"after a position command that is valid up to an illegal move either the previous position or start + legal prefix is accepted", "Hash values that would allocate gigabytes are not generated (sandbox has no memory limit)"}},
 	"C07": {Level: "exploration", Runs: [2]int{1200, 30000}, Batch: 50, DesignRef: "5/C07",
 		Rule: "one evaluation = one simulated session with the terminal-node monitor on; distinct = distinct (interleaving signature); non-trivial = at least one mate/stalemate classification was checked against the rules model",
 		Real: realEngine, Stub: stubEnv,
